@@ -24,6 +24,7 @@ PURE_FREE = {
     "none_of", "count", "count_if", "mismatch", "is_sorted", "strlen", "length", "compare", "eq", "lt",
     "to_integer", "to_address", "invoke", "make_pair", "tie", "forward_as_tuple", "static_cast", "isdigit", "isspace",
     "isalpha", "tolower", "toupper", "index_sequence", "make_index_sequence", "numeric_limits", "in_range",
+    "cmp_less", "cmp_less_equal", "cmp_greater", "cmp_greater_equal", "cmp_equal", "cmp_not_equal",
 }
 PURE_MEMBER = {
     "size", "length", "capacity", "max_size", "empty", "full", "begin", "end", "cbegin", "cend", "rbegin", "rend",
